@@ -451,7 +451,8 @@ def r07g(ctx, rep, cr):
         rep.holds('R07g', f, 'enumerator covers the key slabs', '%s reads %s' % (', '.join(sorted(set(names))), ', '.join(sorted(enum))))
 
 
-NARROWING = re.compile(r'Iterator::(filter|filter_map|skip|skip_while|take|take_while|step_by|find)$|::retain$|::truncate$|::dedup\w*$')
+NARROWING = re.compile(r'Iterator::(filter|filter_map|skip|skip_while|take|take_while|step_by|find)$|::retain$|::truncate$|::dedup\w*$|'
+                       r'(BTreeMap|HashMap|BTreeSet|HashSet|Vec|VecDeque)::<.*>::(clear|drain|remove|pop|pop_front|pop_back|split_off)$')
 # one line of reason per exception
 SNAPSHOT_MAY_NARROW = {TS + 'cache_ring::CacheRing::<V>::snapshot': 'the ring is an array of Option slots; filter_map drops the empty slots, not entries'}
 
@@ -476,6 +477,12 @@ def r07h(ctx, rep, cr):
                 for x in (c.resolved, c.generic):
                     if NARROWING.search(x):
                         nar.add(lib.short(x))
+                # a narrowing function handed over by name: `.for_each(BTreeMap::clear)`
+                for a in c.args:
+                    if a[0] == 'k':
+                        m = re.search(r'((?:std|alloc|core)::[\w:<>, ]+::(?:clear|retain|truncate|drain|pop|remove))\b', str(a[1]))
+                        if m:
+                            nar.add(lib.short(m.group(1)))
         if nar and nm in SNAPSHOT_MAY_NARROW:
             rep.holds('R07h', g, 'snapshot', 'narrowing allowed here: %s' % SNAPSHOT_MAY_NARROW[nm])
         elif nar:
